@@ -51,6 +51,8 @@ func init() {
 	c18Programs = append(c18Programs,
 		"while echo "+big+"; do\n b\ndone\n", "if echo "+big+"; then\n b\nelif c "+big+"; then\n d\nfi\n", "until a; echo "+big+"; do\n b\ndone\n",
 		big+" a\n", big+big+" <<E\nx\nE\n", "{\n"+big+"\n}\n",
+		// the LAST token of the output is larger than the buffer (nothing buffered is left for the final flush to fail on)
+		"echo "+big+"\n", "a b "+big+big+"\n", "x="+big+"\n", "a >"+big+"\n", "echo \""+big+"\"\n", "echo '"+big+"'\n", "cat <<E\n"+big+"\nE\n", "a; { b; echo "+big+"; }\n",
 	)
 	var b strings.Builder
 	b.WriteString("if a; then\n")
@@ -105,8 +107,18 @@ func (p c18) Gen(seed uint64, tier string, idx int) (*Case, bool) {
 	return c, true
 }
 
-// DecodeConfig maps 0..255 onto the complete Config space.
+// c18Configs: 0..255 are the complete space of the enumerated fields with Width 2/4; the indices above add
+// other widths (0: the caller leaves the default to the printer; 1, 3, 8).
+const c18Configs = 256 + 8
+
+// DecodeConfig maps 0..c18Configs-1 onto Config values.
 func DecodeConfig(i int) printer.Config {
+	if i >= 256 {
+		x := i - 256
+		c := DecodeConfig([]int{1, 0, 1, 1, 1 | 4 | 32 | 64 | 128, 8 | 16 | 32, 1 | 128, 1 | 4 | 8 | 16}[x])
+		c.Width = []int{0, 0, 8, 1, 0, 0, 3, 8}[x]
+		return c
+	}
 	var c printer.Config
 	if i&1 != 0 {
 		c.Indent = printer.Space
@@ -152,7 +164,7 @@ type c18Live struct {
 	Fired    int
 }
 
-func safePrint(cfg printer.Config, w io.Writer, n ast.Node) (err error, panicked interface{}, stack string) {
+func safePrint(cfg *printer.Config, w io.Writer, n ast.Node) (err error, panicked interface{}, stack string) {
 	defer func() {
 		if e := recover(); e != nil {
 			panicked = e
@@ -195,9 +207,20 @@ func (p c18) Run(t *testing.T, c *Case, s Sched, keepLog bool) *Obs {
 		return &n
 	}
 
+	// one Config VALUE per index, reused for every print of this case (a printer that writes defaults back
+	// into the caller's Config prints differently the second time)
+	cfgObjs := map[int]*printer.Config{}
+	cfgFor := func(cfgIdx int) *printer.Config {
+		if p, ok := cfgObjs[cfgIdx]; ok {
+			return p
+		}
+		v := DecodeConfig(cfgIdx)
+		cfgObjs[cfgIdx] = &v
+		return &v
+	}
 	freeOut := func(cfgIdx int) ([]byte, bool) {
 		Tick()
-		cfg := DecodeConfig(cfgIdx)
+		cfg := cfgFor(cfgIdx)
 		var b1 bytes.Buffer
 		live.Calls++
 		err, pn, st := safePrint(cfg, &b1, T)
@@ -220,7 +243,7 @@ func (p c18) Run(t *testing.T, c *Case, s Sched, keepLog bool) *Obs {
 
 	if c.Writer.Kind == "" {
 		// fault-free lane over one or all configs
-		lo, hi := 0, 255
+		lo, hi := 0, c18Configs-1
 		if c.Cfg >= 0 {
 			lo, hi = c.Cfg, c.Cfg
 		}
@@ -234,7 +257,7 @@ func (p c18) Run(t *testing.T, c *Case, s Sched, keepLog bool) *Obs {
 			if ci%16 == 0 {
 				// a history with a failing call in between: printing a malformed tree (nil command deep inside compound
 				// lists) panics or fails; that must leave no trace in later prints of the good tree
-				safePrint(DecodeConfig(ci), io.Discard, c18BadTree())
+				safePrint(cfgFor(ci), io.Discard, c18BadTree())
 			}
 			out2, ok := freeOut(ci)
 			if ok && !bytes.Equal(out, out2) {
@@ -247,7 +270,7 @@ func (p c18) Run(t *testing.T, c *Case, s Sched, keepLog bool) *Obs {
 				continue
 			}
 			var b3 bytes.Buffer
-			cfg := DecodeConfig(ci)
+			cfg := cfgFor(ci)
 			live.Calls++
 			if err, pn, _ := safePrint(cfg, &b3, cmds2[0]); pn != nil || err != nil {
 				add("print-panic", fmt.Sprintf("printing the re-parsed output failed (config %d): %v %v", ci, err, pn), narrow(ci, "", 0))
@@ -258,7 +281,7 @@ func (p c18) Run(t *testing.T, c *Case, s Sched, keepLog bool) *Obs {
 			}
 		}
 		o.SubRuns = live.Calls
-		o.Res.Probes = map[string]int{"configs-printed": hi - lo + 1, "programs-under-all-256-configs": b2i(hi-lo == 255)}
+		o.Res.Probes = map[string]int{"configs-printed": hi - lo + 1, "programs-under-all-256-configs": b2i(hi-lo == c18Configs-1)}
 		o.Dump = fmt.Sprintf("fault-free lane: %d Fprint calls", live.Calls)
 		return o
 	}
@@ -269,9 +292,9 @@ func (p c18) Run(t *testing.T, c *Case, s Sched, keepLog bool) *Obs {
 	if c.Cfg >= 0 {
 		cfgs = []int{c.Cfg}
 	} else {
-		cfgs = []int{0, 255}
+		cfgs = []int{0, 255, 256 + rng.Intn(8)}
 		for len(cfgs) < 8 {
-			cfgs = append(cfgs, rng.Intn(256))
+			cfgs = append(cfgs, rng.Intn(c18Configs))
 		}
 	}
 	kinds := []string{"fail", "short", "chunk", "failfull", "fail-sw"}
@@ -305,7 +328,7 @@ func (p c18) Run(t *testing.T, c *Case, s Sched, keepLog bool) *Obs {
 				o.Faults["bufio-boundary-crossed"]++
 			}
 		}
-		cfg := DecodeConfig(ci)
+		cfg := cfgFor(ci)
 		for _, kind := range kinds {
 			Tick()
 			for _, k := range ks {
